@@ -29,7 +29,8 @@ TruncDiv(a, b) == Sgn(a) * Sgn(b) * (Abs(a) \div Abs(b))
 P2Table == <<1, 2, 4, 8, 16, 32, 64, 128, 256, 512, 1024, 2048, 4096, 8192, 16384, 32768, 65536, 131072, 262144,
              524288, 1048576, 2097152, 4194304, 8388608, 16777216>>
 Pow2(k) == P2Table[k + 1]                                  \* 0 <= k <= 24
-IsPow2(n) == \E k \in 1 .. 25 : n = P2Table[k]
+Pow2Set == {P2Table[k] : k \in 1 .. 25}
+IsPow2(n) == n \in Pow2Set
 Two24 == 16777216
 Two13 == 8192
 
@@ -122,15 +123,17 @@ U32(x) == IF x >= 0 THEN <<x \div 65536, x % 65536>>
 (* |x| < 64);  <<text, 0, -2>> : not finite or |x| >= 64.                  *)
 FIsExact(v) == v[3] >= 0
 FOutOfRange(v) == v[3] = -2
-FExactRat(v) == Rat(v[2], Pow2(v[3]))
+FExactRat(v) == IF v[3] = 0 THEN <<v[2], 1>> ELSE Rat(v[2], Pow2(v[3]))
 FHi(v) == IF v[3] >= 0 THEN v[2] * Pow2(24 - v[3]) ELSE v[2]
 FLo(v) == IF v[3] >= 0 THEN 0 ELSE v[4]
 FSgn(v) == IF v[3] >= 0 THEN Sgn(v[2]) ELSE IF v[2] >= 0 THEN 1 ELSE -1
 
-(* tolerance in units of 2^-48 for a result of magnitude < 8:              *)
-(*   float : 2^-21 absolute (a few float roundings of values below 8)      *)
-(*   double: 2^-40 absolute (far above double rounding, far below float)   *)
-Tol48(ty) == IF ty = "f" THEN 134217728 ELSE 256
+(* tolerance for a result of magnitude < 8 that is not representable:      *)
+(*   float : 8 units of 2^-24 = 2^-21 absolute (a few float roundings)     *)
+(*   double: 256 units of 2^-48 = 2^-40 absolute (far above double         *)
+(*           rounding, far below float rounding)                           *)
+TolF24 == 8
+TolD48 == 256
 
 (* observed value v of type ty (f or d) against the exact rational r,      *)
 (* |r| < 8, denominator <= 64                                              *)
@@ -140,9 +143,10 @@ FloatMatches(v, r, ty) ==
        THEN FIsExact(v) /\ FExactRat(v) = r                      \* representable: exact
        ELSE /\ Assert(Abs(r[1]) < 8 * r[2] /\ r[2] <= 64, <<"tolerance comparison out of range", r>>)
             /\ Abs(FHi(v)) < 134217728
-            /\ LET delta == FHi(v) * r[2] - r[1] * Two24 IN
-               /\ Abs(delta) <= r[2]
-               /\ (Abs(delta * Two24 + FLo(v) * r[2]) \div r[2]) <= Tol48(ty)
+            /\ LET delta == FHi(v) * r[2] - r[1] * Two24 IN          \* (floor(x * 2^24) - r * 2^24) * den
+               IF ty = "f" THEN Abs(delta) <= (TolF24 + 1) * r[2]
+               ELSE /\ Abs(delta) <= r[2]
+                    /\ (Abs(delta * Two24 + FLo(v) * r[2]) \div r[2]) <= TolD48
 
 (* n * n / 2^24 for 0 <= n < 2^27, error below 3 units                     *)
 SqUnits(n) == LET A == n \div Two13  B == n % Two13 IN A * A * 4 + ((A * B) \div 1024) + ((B * B) \div Two24)
